@@ -7,11 +7,46 @@
 //! event; thorough tier: also 20,000 and 100,000) x operations {sanitize_html, Html::parse then drop, Html::parse then
 //! to_string, Html::parse then sanitize_with then to_string} x element {div, b}.
 use ruma_html::{sanitize_html, Html, HtmlSanitizerMode, RemoveReplyFallback, SanitizerConfig};
-use serde_json::{json, Value};
+use serde_json::json;
 
 use super::Report;
 
+/// JSON texts whose nesting does not go through one JSON deserializer only: a bundled replacement (`unsigned.m.relations.
+/// m.replace`) is kept as raw JSON and deserialized with a deserializer of its own, whose recursion limit starts afresh.
+fn nested_json(route: &str, depth: usize) -> String {
+    let first = r#"{"content":{"msgtype":"m.text","body":""},"event_id":"$a","sender":"@a:b","origin_server_ts":0,"type":"m.room.message","unsigned":{"m.relations":{"m.replace":"#;
+    match route {
+        // only the outermost event is complete: the inner levels recurse as soon as `unsigned` is visited
+        "replace_incomplete" => format!("{first}{}0{}", r#"{"unsigned":{"m.relations":{"m.replace":"#.repeat(depth), "}}}".repeat(depth + 1)),
+        // every level is a complete event
+        "replace_complete" => {
+            let open = r#"{"content":{"msgtype":"m.text","body":""},"event_id":"$a","sender":"@a:b","origin_server_ts":0,"type":"m.room.message","unsigned":{"m.relations":{"m.replace":"#;
+            format!("{}null{}", open.repeat(depth + 1), "}}}".repeat(depth + 1))
+        }
+        // through the redaction event of a redacted event
+        "redacted_because" => {
+            let open = r#"{"content":{},"event_id":"$a","sender":"@a:b","origin_server_ts":0,"type":"m.room.redaction","redacts":"$b","unsigned":{"m.relations":{"m.replace":"#;
+            format!("{}null{}", open.repeat(depth + 1), "}}}".repeat(depth + 1))
+        }
+        // plain nesting inside the content: stopped by the recursion limit of the one deserializer
+        _ => format!(r#"{{"content":{{"msgtype":"m.text","body":"","x":{}1{}}},"event_id":"$a","sender":"@a:b","origin_server_ts":0,"type":"m.room.message"}}"#, "[".repeat(depth), "]".repeat(depth)),
+    }
+}
+
 pub fn child(depth: usize, op: &str) -> bool {
+    if let Some(route) = op.strip_prefix("json:") {
+        let text = nested_json(route, depth);
+        let h = std::thread::Builder::new()
+            .stack_size(2 * 1024 * 1024)
+            .spawn(move || {
+                // any result is fine, as long as there is one
+                let _ = serde_json::from_str::<ruma_events::AnySyncTimelineEvent>(&text).is_ok();
+                let _ = serde_json::from_str::<ruma_events::AnyTimelineEvent>(&text).is_ok();
+                let _ = serde_json::from_str::<ruma_common::serde::Raw<ruma_events::AnySyncTimelineEvent>>(&text).map(|r| r.deserialize().is_ok());
+            })
+            .unwrap();
+        return h.join().is_ok();
+    }
     let (el, op) = op.split_once(':').unwrap_or(("div", op));
     let doc = format!("{}x{}", format!("<{el}>").repeat(depth), format!("</{el}>").repeat(depth));
     let op = op.to_owned();
@@ -56,9 +91,25 @@ pub fn run(tier: &str) -> Report {
             }
         }
     }
+    // events nested through bundled relations: 1,500 levels of the shortest route are 64.6 KB, the size limit of an event
+    let jdepths: &[usize] = if tier == "thorough" { &[1, 8, 9, 50, 127, 128, 129, 300, 800, 1500, 5000] } else { &[1, 9, 129, 300, 1500] };
+    let (mut jn, mut jf) = (0u64, vec![]);
+    for &d in jdepths {
+        for route in ["replace_incomplete", "replace_complete", "redacted_because", "content_arrays"] {
+            jn += 1;
+            let st = std::process::Command::new(&exe).arg("--deep-html").arg(d.to_string()).arg(format!("json:{route}")).stderr(std::process::Stdio::null()).status();
+            let ok = matches!(&st, Ok(s) if s.success());
+            if !ok {
+                jf.push(json!({"depth": d, "route": route, "bytes": nested_json(route, d).len(), "observed": format!("child process ended with {:?} (stack overflow aborts the process)", st.map(|s| s.to_string()))}));
+            }
+        }
+    }
     Report {
-        bound: format!("nesting depths {depths:?} x 2 elements x 4 operations, each in a child process on a 2 MiB stack"),
-        cases: n,
-        obligations: vec![("html_operations_on_deeply_nested_documents_do_not_exhaust_the_stack", n, f)],
+        bound: format!("HTML: nesting depths {depths:?} x 2 elements x 4 operations; event JSON: nesting depths {jdepths:?} x 4 routes (bundled replacements of incomplete / complete events, of redaction events, arrays in the content) into AnySyncTimelineEvent, AnyTimelineEvent and Raw; each case in a child process on a 2 MiB stack"),
+        cases: n + jn,
+        obligations: vec![
+            ("html_operations_on_deeply_nested_documents_do_not_exhaust_the_stack", n, f),
+            ("events_nested_through_bundled_relations_do_not_exhaust_the_stack", jn, jf),
+        ],
     }
 }
